@@ -135,6 +135,59 @@ theorem write_alias (s s' : Store) (id id' : Nat) (a a' : ArrO) (d : List Rat) (
   simp only [List.getElem?_set_ne (Ne.symm hne), ha'', hsame.1, hsame.2, List.getElem?_set_self hbuf]
   simp only [scatter_read a.idx b.data d hnd hl hr]
 
+/-- **C17 (slices are views of the same data)**: after writing `d` through the view of one Array,
+    *any* other Array object on the same buffer — a slice, a strided or reversed slice, a column, an
+    overlapping slice — reads, position by position, the written value where its view meets the
+    written view and the old value elsewhere; its shape, name and unit label are unchanged. -/
+theorem C17_view_sees_write (s s' : Store) (id id' : Nat) (a a' : ArrO) (d : List Rat) (u : U)
+    (ha : s.arrO? id = some a) (ha' : s.arrO? id' = some a') (hne : id' ≠ id) (hbuf : a'.buf = a.buf)
+    (hv : ViewOK s a) (hl : d.length = a.idx.length)
+    (hw : s.writeArr? id d u = some s') :
+    ∃ old new, s.readArr? id' = some old ∧ s'.readArr? id' = some new ∧
+      new.shape = old.shape ∧ new.name = old.name ∧ new.unit = old.unit ∧
+      new.data.length = a'.idx.length ∧ old.data.length = a'.idx.length ∧
+      ∀ j (hj : j < a'.idx.length),
+        (∀ k (hk : k < a.idx.length), a'.idx[j] = a.idx[k] → getR new.data j = getR d k) ∧
+        (a'.idx[j] ∉ a.idx → getR new.data j = getR old.data j) := by
+  obtain ⟨hnd, b, hb, hr⟩ := hv
+  unfold Store.writeArr? at hw
+  simp only [ha, hb] at hw
+  cases hw
+  have ha'' : s.objs[id']? = some (.arr a') := by
+    unfold Store.arrO? at ha'
+    cases h : s.objs[id']? with
+    | none => simp [h] at ha'
+    | some o => cases o <;> simp_all
+  have hbl : a.buf < s.bufs.length := (List.getElem?_eq_some_iff.mp hb).1
+  have hb' : s.bufs[a'.buf]? = some b := by rw [hbuf]; exact hb
+  refine ⟨{ shape := a'.shape, dtype := b.dtype, data := a'.idx.map (getR b.data), unit := a'.unit, name := a'.name },
+          { shape := a'.shape, dtype := b.dtype, data := a'.idx.map (getR (scatter b.data a.idx d)), unit := a'.unit, name := a'.name },
+          ?_, ?_, rfl, rfl, rfl, by simp, by simp, ?_⟩
+  · unfold Store.readArr? Store.arrO?
+    simp only [ha'', hb']
+  · unfold Store.readArr? Store.arrO?
+    simp only [List.getElem?_set_ne (Ne.symm hne), ha'', hbuf, List.getElem?_set_self hbl]
+  · intro j hj
+    have hget : ∀ (f : Nat → Rat), getR (a'.idx.map f) j = f a'.idx[j] := by
+      intro f
+      unfold getR
+      simp [List.getD_eq_getElem?_getD, hj]
+    constructor
+    · intro k hk hjk
+      simp only [hget]
+      rw [hjk]
+      have hmap := scatter_read a.idx b.data d hnd hl hr
+      have h1 : (a.idx.map (getR (scatter b.data a.idx d)))[k]? = d[k]? := by rw [hmap]
+      simp only [List.getElem?_map] at h1
+      have hkd : k < d.length := by omega
+      simp only [List.getElem?_eq_getElem hk, List.getElem?_eq_getElem hkd, Option.map_some, Option.some.injEq] at h1
+      rw [h1]
+      unfold getR
+      simp [List.getD_eq_getElem?_getD, hkd]
+    · intro hnot
+      simp only [hget]
+      exact scatter_frame a.idx b.data d _ hnot hr
+
 /-- store invariant: every Array object points at an existing buffer -/
 def StoreOK (s : Store) : Prop := ∀ id a, s.arrO? id = some a → a.buf < s.bufs.length
 
